@@ -300,8 +300,9 @@ void op_log(World& W, int wi, bool in_burst, int ypoint, int logger_override = -
   if (kind_override >= 0) s.kind = static_cast<SKind>(kind_override);
   else if (is_prop("C10"))
   {
-    switch (c.weighted({6, 1, 1, 2, 1, 3, 1}))
+    switch (c.weighted({6, 1, 1, 2, 1, 3, 1, 1}))
     {
+    case 7: s.kind = SKind::NamedBadSpec; break;
     case 0: break;
     case 5: s.kind = SKind::Named; break;
     case 6: s.kind = SKind::NamedBtNoInit; break;
@@ -340,13 +341,13 @@ void op_log(World& W, int wi, bool in_burst, int ypoint, int logger_override = -
   }
   if (is_bt_kind(s.kind) || s.kind == SKind::BtNoInit || s.kind == SKind::NamedBtNoInit) s.level = 9;
   if (s.kind == SKind::Named) s.level = 4;
-  if (s.kind == SKind::BadTemplate || s.kind == SKind::BadSpec || s.kind == SKind::BtNoInit || s.kind == SKind::NamedBtNoInit ||
+  if (s.kind == SKind::BadTemplate || s.kind == SKind::BadSpec || s.kind == SKind::NamedBadSpec || s.kind == SKind::BtNoInit || s.kind == SKind::NamedBtNoInit ||
       (s.kind == SKind::Bomb && s.bomb_kind != 0))
   {
     s.faulty = true;
     ++W.injected_faults;
   }
-  if (s.kind == SKind::BadTemplate || s.kind == SKind::BadSpec || s.kind == SKind::Bomb) s.level = 4;
+  if (s.kind == SKind::BadTemplate || s.kind == SKind::BadSpec || s.kind == SKind::NamedBadSpec || s.kind == SKind::Bomb) s.level = 4;
   bool is_macro = (s.kind == SKind::MacroStatic || s.kind == SKind::MacroDynamic);
   if (!is_macro) s.seq = x.next_seq++;
   bool never_fits_ok = kDropping && is_prop("C08");
@@ -402,6 +403,7 @@ void op_log(World& W, int wi, bool in_burst, int ypoint, int logger_override = -
     if (kind == SKind::NamedBacktrace) d += ",bt-named";
     if (kind == SKind::BadTemplate) d += ",badtemplate";
     if (kind == SKind::BadSpec) d += ",badspec";
+    if (kind == SKind::NamedBadSpec) d += ",named-badspec";
     if (kind == SKind::Bomb) d += ",bomb" + std::to_string(bomb_kind);
     if (kind == SKind::BtNoInit) d += ",bt-noinit";
     if (kind == SKind::Named) d += ",named";
@@ -488,6 +490,9 @@ void op_log(World& W, int wi, bool in_burst, int ypoint, int logger_override = -
           break;
         case SKind::BadSpec:
           xp->res_accepted = lg->template log_statement<false, false>(quill::LogLevel::None, &kMdBadSpec, wid, seq, pad);
+          break;
+        case SKind::NamedBadSpec:
+          xp->res_accepted = lg->template log_statement<false, false>(quill::LogLevel::None, &kMdNamedBadSpec, wid, seq, pad);
           break;
         case SKind::Bomb:
           xp->res_accepted = lg->template log_statement<false, false>(quill::LogLevel::None, &kMdBomb, Bomb{bomb_kind, wid, seq}, pad);
